@@ -225,6 +225,7 @@ Proof.
   - unfold close_conn, produced, wire_bytes, wire_chunks. cbn [s_chunks s_buf s_err].
     fold (wire_chunks (sender_flush s)). fold (wire_bytes (sender_flush s)). fold (produced (sender_flush s)).
     rewrite flush_produced, flush_err, app_nil_r. tauto.
+  - rewrite put_produced. now destruct (put_flags n bs s) as (-> & _).
 Qed.
 
 Lemma step_err_sticky s o : s_err s = true -> s_err (sstep s o) = true.
@@ -280,7 +281,8 @@ Proof.
     - unfold send_sizes, send_u32N.
       destruct (send_sizes_fold l (put nbuf wcap 4 (be 4 (nlen l)) s)) as (_ & _ & ->).
       now destruct (put_flags 4 (be 4 (nlen l)) s) as (_ & ->).
-    - now rewrite flush_closed. }
+    - now rewrite flush_closed.
+    - now destruct (put_flags n bs s) as (_ & ->). }
   destruct o; try (apply IH; [apply Hcl; discriminate|assumption|exact Hw]).
   cbn in Hw. subst ops. cbn. exact He'.
 Qed.
@@ -356,6 +358,18 @@ Proof.
   - apply N.ltb_ge in E. apply SInv_append; [assumption|lia].
 Qed.
 
+Lemma SInv_put_le k bs s : SInv s -> nlen bs <= k -> k <= wcap -> SInv (put nbuf wcap k bs s).
+Proof.
+  intros Hs Hk Hle. unfold put. destruct (wcap <? wpos s + k) eqn:E.
+  - apply SInv_append; [now apply SInv_flush|]. rewrite flush_wpos. lia.
+  - apply N.ltb_ge in E. apply SInv_append; [assumption|lia].
+Qed.
+
+(* domain of the in-place write op: the caller stores at most the n bytes it asked
+   NeedSpace for, and n fits a buffer (otherwise the Go code indexes past the buffer) *)
+Definition raw_fits (o : op) : Prop :=
+  match o with ORaw n bs => nlen bs <= n /\ n <= wcap | _ => True end.
+
 Lemma SInv_data_loop : forall fuel d s, SInv s -> SInv (data_loop nbuf wcap fuel d s).
 Proof.
   induction fuel as [|fuel IH]; intros d s Hs; destruct d as [|x d']; cbn [data_loop]; try assumption.
@@ -369,9 +383,9 @@ Qed.
 Section WithMin.
 Hypothesis wcap_min : 16 <= wcap.   (* the largest fixed-size value (a label) fits in a buffer *)
 
-Lemma SInv_step s o : SInv s -> SInv (sstep s o).
+Lemma SInv_step s o : raw_fits o -> SInv s -> SInv (sstep s o).
 Proof.
-  intros Hs. unfold step. destruct (s_closed s || s_err s).
+  intros Hfit Hs. unfold step. destruct (s_closed s || s_err s).
   { destruct Hs. split; assumption. }
   destruct o.
   - apply SInv_put; [assumption|apply nlen_be|lia].
@@ -387,23 +401,74 @@ Proof.
     apply H, SInv_put; [assumption|apply nlen_be|lia].
   - now apply SInv_flush.
   - pose proof (SInv_flush s Hs) as [H1 H2 H3 H4]. unfold close_conn. split; assumption.
+  - cbn in Hfit. apply SInv_put_le; [assumption|apply Hfit|apply Hfit].
 Qed.
 
 (* (4, sender half) after any op sequence: Stats.Sent = number of bytes handed
    to the writer, Stats.Flushed = number of chunks, every chunk is non-empty
    and at most one buffer long *)
-Theorem sender_counters ops :
+Theorem sender_counters ops : Forall raw_fits ops ->
   let s := srun ops in
   s_sent s = nlen (wire_bytes s) /\ s_flushed s = nlen (s_chunks s) /\
   Forall (fun c => 0 < nlen (snd c) <= wcap) (s_chunks s).
 Proof.
-  cbn. assert (H : forall ops s, SInv s -> SInv (fold_left sstep ops s)).
-  { induction ops0 as [|o ops0 IH]; intros s Hs; cbn; [assumption|]. apply IH, SInv_step, Hs. }
-  destruct (H ops s_init SInv_init). tauto.
+  intros Hfit. cbn. assert (H : forall ops s, Forall raw_fits ops -> SInv s -> SInv (fold_left sstep ops s)).
+  { induction ops0 as [|o ops0 IH]; intros s Hf Hs; cbn; [assumption|].
+    inversion Hf; subst. apply IH; [assumption|]. apply SInv_step; assumption. }
+  destruct (H ops s_init Hfit SInv_init). tauto.
 Qed.
 
 End WithMin.
 End SenderProofs.
+
+(* the counters alone need no size hypothesis: after ANY op sequence (in-place
+   writes included) Sent = bytes handed to the writer, Flushed = number of
+   chunks, no chunk is empty *)
+Section Counters.
+Variables (nbuf wcap : N).
+
+Record KInv (s : sender) : Prop := {
+  ki_sent : s_sent s = nlen (wire_bytes s);
+  ki_flushed : s_flushed s = nlen (s_chunks s);
+  ki_chunks : Forall (fun c => 0 < nlen (snd c)) (s_chunks s)
+}.
+
+Lemma KInv_flush s : KInv s -> KInv (flush_buf nbuf s).
+Proof.
+  intros [H1 H2 H3]. unfold flush_buf. destruct (0 <? wpos s) eqn:E; [|split; assumption].
+  apply N.ltb_lt in E. split; cbn [s_sent s_flushed s_chunks].
+  - unfold wire_bytes, wire_chunks. cbn [s_chunks]. rewrite wire_bytes_snoc, nlen_app, H1. reflexivity.
+  - rewrite nlen_app, H2. reflexivity.
+  - apply Forall_app. split; [assumption|]. constructor; [|constructor]. exact E.
+Qed.
+
+Lemma KInv_run ops : KInv (run_sender nbuf wcap ops).
+Proof.
+  assert (Hput : forall k bs s, KInv s -> KInv (put nbuf wcap k bs s)).
+  { intros k bs s Hs. unfold put. set (s1 := if wcap <? wpos s + k then flush_buf nbuf s else s).
+    assert (Hs1 : KInv s1) by (unfold s1; destruct (wcap <? wpos s + k); [now apply KInv_flush|assumption]).
+    destruct Hs1. split; assumption. }
+  assert (Hdl : forall fuel d s, KInv s -> KInv (data_loop nbuf wcap fuel d s)).
+  { induction fuel as [|fuel IH]; intros d s Hs; destruct d as [|x d']; cbn [data_loop]; try assumption.
+    - destruct Hs. split; assumption.
+    - apply IH. set (s1 := if wcap <=? wpos s then flush_buf nbuf s else s).
+      assert (Hs1 : KInv s1) by (unfold s1; destruct (wcap <=? wpos s); [now apply KInv_flush|assumption]).
+      destruct Hs1. split; assumption. }
+  assert (Hfold : forall l s, KInv s -> KInv (fold_left (fun s v => send_u32 nbuf wcap v s) l s)).
+  { induction l as [|v l IH]; intros s Hs; cbn; [assumption|]. apply IH. now apply Hput. }
+  assert (Hstep : forall s o, KInv s -> KInv (step nbuf wcap s o)).
+  { intros s o Hs. unfold step. destruct (s_closed s || s_err s); [destruct Hs; split; assumption|].
+    destruct o; try (now apply Hput); try (apply Hdl; now apply Hput).
+    - apply Hfold. now apply Hput.
+    - now apply KInv_flush.
+    - pose proof (KInv_flush s Hs) as [H1 H2 H3]. unfold close_conn. split; assumption. }
+  unfold run_sender.
+  assert (H : forall ops s, KInv s -> KInv (fold_left (step nbuf wcap) ops s)).
+  { induction ops0 as [|o ops0 IH]; intros s Hs; cbn; auto. }
+  apply H. split; cbn; try reflexivity. constructor.
+Qed.
+
+End Counters.
 
 (* ============================================================== B. receiver *)
 
@@ -725,13 +790,16 @@ Qed.
 
 Hypothesis rcap_min : 16 <= rcap.   (* the largest fixed-size value (a label) fits in the read buffer *)
 
+(* domain of the in-place read: Fill(k) can only succeed for k <= readBufSize *)
+Definition ty_fits (t : ty) : Prop := match t with TRaw k => k <= rcap | _ => True end.
+
 (* (3) every typed receive computes the abstract parser on window ++ rest, for
    every segmentation of the transport; when the parser fails (not enough
    bytes before the end of the stream) the receive reports EOF; no other
    error is possible: Fill is never asked for more than the buffer holds. *)
-Theorem recv_ty_refines t r : RInv r -> refines r (recv_ty rcap t r) (parse_ty t (all r)).
+Theorem recv_ty_refines t r : ty_fits t -> RInv r -> refines r (recv_ty rcap t r) (parse_ty t (all r)).
 Proof.
-  intros Hr. destruct t; cbn [recv_ty parse_ty]; apply wrap_refines.
+  intros Hfit Hr. destruct t; cbn [recv_ty parse_ty]; apply wrap_refines.
   - apply recv_num_refines; [assumption|lia].
   - apply recv_num_refines; [assumption|lia].
   - apply recv_num_refines; [assumption|lia].
@@ -739,9 +807,10 @@ Proof.
   - apply recv_data_refines; [assumption|lia].
   - apply recv_num_refines; [assumption|lia].
   - apply recv_sizes_refines; [assumption|lia].
+  - apply recv_fixed_refines; [assumption|exact Hfit].
 Qed.
 
-Theorem recv_all_refines : forall tys r, RInv r ->
+Theorem recv_all_refines : forall tys r, Forall ty_fits tys -> RInv r ->
   let out := recv_all rcap tys r in
   RInv (fst out) /\ pulled r (fst out) /\
   match parse_all tys (all r) with
@@ -749,12 +818,13 @@ Theorem recv_all_refines : forall tys r, RInv r ->
   | None => snd out = None
   end.
 Proof.
-  induction tys as [|t tys IH]; intros r Hr; cbn [recv_all parse_all].
+  induction tys as [|t tys IH]; intros r Hfit Hr; cbn [recv_all parse_all].
   - cbn. repeat split; try apply Hr.
-  - pose proof (recv_ty_refines t r Hr) as H. unfold refines in H.
+  - inversion Hfit as [|? ? Hft Hfts]; subst.
+    pose proof (recv_ty_refines t r Hft Hr) as H. unfold refines in H.
     destruct (recv_ty rcap t r) as [r1 [v|e]]; destruct (parse_ty t (all r)) as [[v' rest]|];
       cbn [fst snd] in *; destruct H as (Hi & Hp & H).
-    + destruct H as (H1 & H2). injection H1 as <-. specialize (IH r1 Hi). cbn in IH. rewrite H2 in IH.
+    + destruct H as (H1 & H2). injection H1 as <-. specialize (IH r1 Hfts Hi). cbn in IH. rewrite H2 in IH.
       destruct (recv_all rcap tys r1) as [r2 [vs|]]; cbn [fst snd] in *;
         destruct IH as (Hi2 & Hp2 & IH); (split; [assumption|]); (split; [eapply pulled_trans; eassumption|]);
         destruct (parse_all tys rest) as [[vs' rest']|]; try (destruct IH; congruence); try congruence.
@@ -765,9 +835,9 @@ Proof.
 Qed.
 
 (* the only error a typed receive can report on this transport is EOF *)
-Corollary recv_ty_only_eof t r r' e : RInv r -> recv_ty rcap t r = (r', inr e) -> e = EEOF.
+Corollary recv_ty_only_eof t r r' e : ty_fits t -> RInv r -> recv_ty rcap t r = (r', inr e) -> e = EEOF.
 Proof.
-  intros Hr H. pose proof (recv_ty_refines t r Hr) as R. rewrite H in R. unfold refines in R. cbn in R.
+  intros Hfit Hr H. pose proof (recv_ty_refines t r Hfit Hr) as R. rewrite H in R. unfold refines in R. cbn in R.
   destruct R as (_ & _ & R). destruct (parse_ty t (all r)) as [[v rest]|]; [destruct R; congruence|congruence].
 Qed.
 
@@ -783,6 +853,7 @@ Definition wf_val (v : val) : Prop :=
   | VData d | VString d => nlen d < 4294967296
   | VLabel l => l < 2 ^ 128
   | VSizes l => nlen l < 4294967296 /\ Forall (fun x => x < 4294967296) l
+  | VRaw _ => True
   end.
 
 Lemma parse_fixed_app k bs rest : nlen bs = k -> parse_fixed k (bs ++ rest) = Some (bs, rest).
@@ -821,6 +892,7 @@ Proof.
   - destruct Hw as (Hn & Hl). unfold parse_sizes. rewrite <- app_assoc.
     rewrite (parse_num_be 4 4 (nlen l)) by (try reflexivity; exact Hn).
     unfold nlen. rewrite Nat2N.id. now rewrite parse_nums_encode.
+  - now rewrite parse_fixed_app.
 Qed.
 
 Lemma parse_all_encode : forall vs rest, Forall wf_val vs ->
@@ -878,22 +950,23 @@ Qed.
 Theorem roundtrip nbuf wcap rcap ops frags eofdata :
   16 <= wcap -> 16 <= rcap ->
   close_only_last ops -> ends_flushed ops -> Forall op_in_domain ops ->
+  Forall (ty_fits rcap) (types_of ops) ->
   let s := run_sender nbuf wcap ops in
   let out := recv_all rcap (types_of ops) (r_init (mkT (wire_bytes s) frags eofdata 0)) in
   snd out = Some (values_of ops) /\
   all (fst out) = [] /\
   r_recvd (fst out) = s_sent s /\ s_sent s = nlen (wire_bytes s).
 Proof.
-  intros Hw Hr Hc Hf Hd s out.
+  intros Hw Hr Hc Hf Hd Hfit s out.
   assert (Hw0 : 0 < wcap) by lia.
   pose proof (wire_is_concat nbuf wcap Hw0 ops Hc Hf) as Hwire. fold s in Hwire.
-  pose proof (recv_all_refines rcap Hr (types_of ops) _ (RInv_init rcap (mkT (wire_bytes s) frags eofdata 0))) as H.
+  pose proof (recv_all_refines rcap Hr (types_of ops) _ Hfit (RInv_init rcap (mkT (wire_bytes s) frags eofdata 0))) as H.
   cbn zeta in H. fold out in H. destruct H as (Hi & Hp & H).
   unfold all in H at 1. cbn [r_init r_win r_t t_stream app] in H.
   rewrite Hwire in H. unfold types_of in H.
   rewrite <- (app_nil_r (concat (map encode (values_of ops)))) in H.
   rewrite (parse_all_encode _ [] (values_wf ops Hd)) in H. destruct H as (H1 & H2).
-  pose proof (sender_counters nbuf wcap Hw0 Hw ops) as (Hs & _). cbn zeta in Hs. fold s in Hs.
+  pose proof (ki_sent _ (KInv_run nbuf wcap ops)) as Hs. fold s in Hs.
   split; [assumption|]. split; [assumption|]. split; [|assumption].
   unfold pulled in Hp. cbn [r_init r_recvd r_t t_stream] in Hp.
   unfold all in H2. apply app_eq_nil in H2. destruct H2 as (_ & H2). rewrite H2 in Hp. cbn in Hp.
@@ -911,7 +984,7 @@ Qed.
    asks Fill for min(need, readBufSize) again and again and every byte passes
    through Fill's accounting. *)
 Theorem stats_agree nbuf wcap rcap ops frags eofdata tys :
-  16 <= wcap -> 16 <= rcap ->
+  16 <= wcap -> 16 <= rcap -> Forall (ty_fits rcap) tys ->
   let s := run_sender nbuf wcap ops in
   let out := recv_all rcap tys (r_init (mkT (wire_bytes s) frags eofdata 0)) in
   s_sent s = nlen (wire_bytes s) /\
@@ -920,14 +993,14 @@ Theorem stats_agree nbuf wcap rcap ops frags eofdata tys :
   (close_only_last ops -> ends_flushed ops -> Forall op_in_domain ops -> tys = types_of ops ->
    snd out = Some (values_of ops) /\ r_recvd (fst out) = s_sent s).
 Proof.
-  intros Hw Hr s out.
-  pose proof (sender_counters nbuf wcap ltac:(lia) Hw ops) as (Hs & _). cbn zeta in Hs. fold s in Hs.
-  pose proof (recv_all_refines rcap Hr tys _ (RInv_init rcap (mkT (wire_bytes s) frags eofdata 0))) as H.
+  intros Hw Hr Hfit s out.
+  pose proof (ki_sent _ (KInv_run nbuf wcap ops)) as Hs. fold s in Hs.
+  pose proof (recv_all_refines rcap Hr tys _ Hfit (RInv_init rcap (mkT (wire_bytes s) frags eofdata 0))) as H.
   cbn zeta in H. fold out in H. destruct H as (_ & Hp & _).
   unfold pulled in Hp. cbn [r_init r_recvd r_t t_stream] in Hp.
   split; [exact Hs|]. split; [lia|]. split.
   - intros Ha. unfold all in Ha. apply app_eq_nil in Ha. destruct Ha as (_ & Ha). rewrite Ha in Hp. cbn in Hp. lia.
-  - intros Hc Hf Hd ->. destruct (roundtrip nbuf wcap rcap ops frags eofdata Hw Hr Hc Hf Hd) as (H1 & _ & H3 & _).
+  - intros Hc Hf Hd ->. destruct (roundtrip nbuf wcap rcap ops frags eofdata Hw Hr Hc Hf Hd Hfit) as (H1 & _ & H3 & _).
     split; assumption.
 Qed.
 
@@ -1219,6 +1292,16 @@ Example big_payload_counters :
   t_nreads (r_t (fst out)) = 4 /\ r_start (fst out) = 7 /\ r_end (fst out) = 7.
 Proof. vm_compute. repeat split; reflexivity. Qed.
 
+(* the in-place write API rolling over 16-byte buffers inside NeedSpace, read back in place *)
+Example inplace_rollover :
+  let ops := [ORaw 8 [1; 2; 3; 4; 5]; ORaw 8 [6; 7; 8; 9; 10; 11; 12; 13]; OU16 258; ORaw 16 (repeat 7 16); ORaw 3 []; OFlush] in
+  let s := run_sender 3 16 ops in
+  let out := recv_all 16 (types_of ops) (r_init (mkT (wire_bytes s) [3] true 0)) in
+  Forall (raw_fits 16) ops /\ Forall (ty_fits 16) (types_of ops) /\
+  snd out = Some (values_of ops) /\ map (fun c => nlen (snd c)) (s_chunks s) = [15; 16] /\
+  s_sent s = 31 /\ r_recvd (fst out) = 31.
+Proof. cbn zeta. split; [repeat constructor; cbn; lia|]. split; [repeat constructor; cbn; lia|]. vm_compute. repeat split; reflexivity. Qed.
+
 Example overread_is_eof :
   snd (recv_ty 16 TU32 (r_init (mkT [1; 2; 3] [] false 0))) = inr EEOF /\
   snd (recv_ty 16 TU32 (r_init (mkT [1; 2; 3] [] true 0))) = inr EEOF /\
@@ -1424,7 +1507,7 @@ Theorem sender_ring_exists nbuf wcap ops mem0 : (0 < nbuf)%N -> (16 <= wcap)%N -
             g_written g = wire_chunks (run_sender nbuf wcap ops).
 Proof.
   intros Hn Hw. apply ring_can_flush; [lia|].
-  pose proof (sender_counters nbuf wcap ltac:(lia) Hw ops) as (_ & _ & H). cbn zeta in H.
+  pose proof (ki_chunks _ (KInv_run nbuf wcap ops)) as H.
   unfold wire_chunks. apply Forall_forall. intros c Hc. apply in_map_iff in Hc.
   destruct Hc as ((b & c') & <- & Hin). rewrite Forall_forall in H. specialize (H _ Hin). cbn in *.
   intros ->. cbn in H. lia.
